@@ -40,6 +40,9 @@ def run_whole(ctx, pid, n, mons=None, force=None, nontrivial=None, machine_repla
     hterms, howners = [], []
     evals = 0
     for r in results:
+        if r.get("timed_out"):
+            dist["run-cut-off-by-the-time-limit-before-anything-was-recorded"] += 1
+            continue
         if r.get("crash"):
             crashes += 1
             disagreements.append({"what": f"harness crashed on seed {r['seed']}: {r['crash'][-300:]}", "seed": r["seed"]})
